@@ -2,6 +2,7 @@ package rules
 
 import (
 	"go/ast"
+	"go/token"
 	"go/types"
 	"strings"
 
@@ -30,6 +31,7 @@ func runC05(p *eng.Prog, r *eng.Report, tier string) {
 	c05DeferWriter(c)
 	c05Send(c)
 	c05Marshal(c)
+	c05MarshalAdapters(c)
 	c05Params(c)
 	c05StanzaEncoder(c)
 	c05SendKinds(c)
@@ -570,5 +572,89 @@ func c05SendKinds(c *cx) {
 			}
 		}
 		c.r.Floor(id, "transmits in "+k.fn, n, 2)
+	}
+}
+
+// c05MarshalAdapters (C05.4): the two adapters between a marshalled value and
+// the token copy keep the element complete and the call's own:
+// rawTokenReader.Token forwards RawToken's token AND error together (a token
+// decoder hands out the last token together with io.EOF: dropping either loses
+// the end tag), and the decoder built by tokenDecoder reads from a buffer that
+// belongs to this call only.
+func c05MarshalAdapters(c *cx) {
+	id := "C05.4"
+	if f := c.fn(id, "internal/marshal", "rawTokenReader.Token"); f != nil {
+		g := f.Graph()
+		n := 0
+		for _, rs := range g.Returns {
+			n++
+			pt, _ := g.Where(rs)
+			ok := false
+			why := ""
+			switch len(rs.Results) {
+			case 1:
+				cl, isCall := ast.Unparen(rs.Results[0]).(*ast.CallExpr)
+				ok = isCall && f.CalleeID(cl) == "encoding/xml.Decoder.RawToken"
+				why = "returns " + f.Norm(rs.Results[0], &pt)
+			case 2:
+				t, e := f.Norm(rs.Results[0], &pt), f.Norm(rs.Results[1], &pt)
+				okT := eng.Glob("encoding/xml.Decoder.RawToken[*]()#0", t) || eng.Glob("encoding/xml.CopyToken(encoding/xml.Decoder.RawToken[*]()#0)", t)
+				okE := eng.Glob("encoding/xml.Decoder.RawToken[*]()#1", e)
+				if e == "nil" {
+					okE, _ = g.Dominated(pt, "eq(encoding/xml.Decoder.RawToken[*]()#1,nil)")
+				}
+				ok = okT && okE
+				why = "returns (" + t + ", " + e + ")"
+			}
+			c.r.Check(id, f, "raw token forwarded with its error", "P: every return hands on the token and the error of the same RawToken call (a token that comes with io.EOF is the element's end tag)", rs.Pos(), ok, why)
+		}
+		c.r.Floor(id, "returns of rawTokenReader.Token", n, 1)
+	}
+	if f := c.fn(id, "internal/marshal", "tokenDecoder"); f != nil {
+		g := f.Graph()
+		n := 0
+		for _, cl := range f.Calls("encoding/xml.NewDecoder") {
+			n++
+			pt, _ := g.Where(cl)
+			arg := ast.Unparen(cl.Args[0])
+			fresh := false
+			why := "source is " + f.Norm(arg, &pt)
+			if u, ok := arg.(*ast.UnaryExpr); ok && u.Op == token.AND {
+				arg = ast.Unparen(u.X)
+				if _, isLit := arg.(*ast.CompositeLit); isLit {
+					fresh = true
+				}
+			}
+			if idn, ok := arg.(*ast.Ident); ok {
+				if v, ok := f.Info().ObjectOf(idn).(*types.Var); ok && v.Parent() != v.Pkg().Scope() {
+					defs := g.ReachingDefs(v, pt)
+					fresh = len(defs) > 0
+					for _, d := range defs {
+						switch d.Kind {
+						case eng.DefZero:
+						case eng.DefPlain:
+							r := ast.Unparen(d.RHS)
+							if u, ok := r.(*ast.UnaryExpr); ok && u.Op == token.AND {
+								r = ast.Unparen(u.X)
+							}
+							switch rr := r.(type) {
+							case *ast.CompositeLit:
+							case *ast.CallExpr:
+								if id := f.CalleeID(rr); id != "builtin.new" && id != "bytes.NewBuffer" && id != "bytes.NewReader" && id != "bytes.NewBufferString" && id != "strings.NewReader" {
+									fresh = false
+									why = "the buffer comes from " + id + " (shared between calls)"
+								}
+							default:
+								fresh = false
+							}
+						default:
+							fresh = false
+						}
+					}
+				}
+			}
+			c.r.Check(id, f, "decoder reads a buffer of its own", "E-alias: the buffer handed to xml.NewDecoder is allocated in this call (the decoder reads it lazily, after tokenDecoder has returned: a pooled or shared buffer is overwritten by a concurrent call)", cl.Pos(), fresh, why)
+		}
+		c.r.Floor(id, "byte decoders built by tokenDecoder", n, 1)
 	}
 }
